@@ -1970,3 +1970,8 @@ def run(ctx: Ctx, rep: Report, tier: str) -> None:
     sub = Report("C20")
     splitter_vocabulary(ctx, sub, "R09.5")
     rep.absorb(sub, "R20.7")
+
+
+# what the later rounds (seeding rounds 2-5, refactor twins, defect hunt) added to what the check decides
+LATER_ROUNDS = "attributes are assigned before they are read during construction, a Remark always has a text, an address group is never built empty from text, record keys exist for records collected through dict values"
+EXPLANATION = EXPLANATION.replace(" Does not decide", " Later rounds added: " + LATER_ROUNDS + ". Does not decide", 1) if " Does not decide" in EXPLANATION else EXPLANATION + " Later rounds added: " + LATER_ROUNDS + "."
